@@ -33,6 +33,9 @@ READ_CMDS = [
     ("list-jsonl", lambda f, o: ["list", "--solid", "--format", "jsonl", "--unstable", f]),
     ("list-tree", lambda f, o: ["list", "--solid", "--format", "tree", "--unstable", f]),
     ("extract", lambda f, o: ["extract", f, "--out-dir", o, "--overwrite"]),
+    ("extract-keep", lambda f, o: ["extract", f, "--out-dir", o, "--overwrite", "--keep-timestamp", "--keep-permission", "--keep-xattr"]),
+    ("list-long-T", lambda f, o: ["list", "--solid", "-l", "-T", "-@", f]),
+    ("update-newer", lambda f, o: ["experimental", "update", f, "--newer-mtime", os.path.join(o, "..", "in.pna")]),
     ("chunk-list", lambda f, o: ["experimental", "chunk", "list", f]),
     ("split", lambda f, o: ["split", f, "--out-dir", o, "--overwrite", "--max-size", "200"]),
     ("concat", lambda f, o: ["concat", os.path.join(o, "cat.pna"), f, "--overwrite"]),
@@ -143,3 +146,27 @@ def chunk_list_offsets(c, archives):
     # model answers: ERR <kind> collapses to ERR for the CLI comparison
     model = c.correspondence_py("archive", cases, outcomes, orc)
     return len(cases)
+
+
+def kdf_cost_finding(c):
+    """F-C07-kdf-cost: a PHSF chunk may demand 2^32-1 KDF iterations; a reader that is given a password then computes
+    for hours.  It terminates in principle, so it is recorded as a known finding, identified by these two inputs."""
+    import struct, zlib
+    def ch(t, d): return struct.pack(">I", len(d)) + t + d + struct.pack(">I", zlib.crc32(t + d))
+    sig = b"\x89PNA\r\n\x1a\n"
+    hit = 0
+    with cli.Sandbox("kdfcost") as sb:
+        for name, phsf in (("argon2-t", b"$argon2id$v=19$m=8,t=4294967295,p=1$c2FsdHNhbHRzYWx0"),
+                           ("pbkdf2-i", b"$pbkdf2-sha256$i=4294967295,l=32$c2FsdHNhbHRzYWx0")):
+            a = sig + ch(b"AHED", bytes(8)) + ch(b"FHED", bytes([0, 0, 0, 0, 1, 1]) + b"f") + ch(b"PHSF", phsf) + ch(b"FDAT", bytes(32)) + ch(b"FEND", b"") + ch(b"AEND", b"")
+            f = sb.path(name + ".pna")
+            open(f, "wb").write(a)
+            r = cli.run_pna(["extract", f, "--out-dir", sb.path("o"), "--overwrite", "--password", "pw"], cwd=sb.root, timeout=6)
+            c.cov["evaluations"] += 1
+            if r["timeout"]:
+                hit += 1
+            elif r["rc"] == 101:
+                c.violations.append(("cli", "pna extract panics on a PHSF with a huge cost parameter", "PHSF: %s" % phsf.decode(), True))
+    if hit:
+        c.finding_hit.add("F-C07-kdf-cost")
+    return hit
